@@ -39,6 +39,13 @@ def vocab_key(qname):
     return ''.join(out)
 
 
+def load_known_locals():
+    try:
+        return json.load(open(VOCAB)).get('locals')
+    except (OSError, ValueError):
+        return None
+
+
 def load_vocab():
     try:
         return set(json.load(open(VOCAB))['functions'])
@@ -189,31 +196,43 @@ def value_form(stmts):
         if s.get('k') != 'null':
             prefix.append(s)
         i += 1
-    e = _value_expr(stmts[i:])
+    lifted = []
+    e = _value_expr(stmts[i:], lifted)
     if e is None:
         return None
-    return prefix, e, pure
+    return prefix + lifted, e, pure
 
 
-def _value_expr(stmts):
+def _value_expr(stmts, lifted=None, guards=()):
+    """expression computed by a return / if-return chain.  ASSERTs met on the way are lifted out as statements guarded by
+       the (pure) conditions under which they are reached: appended to `lifted`."""
     if not stmts:
         return None
     s = stmts[0]
     k = s.get('k')
+    if k == 'assert' and lifted is not None:
+        st = s
+        for c, pol in reversed(guards):
+            cond = c if pol else {'k': 'un', 'op': '!', 'l': c.get('l'), 't': 'bool', 'e': c}
+            st = {'k': 'if', 'l': s.get('l'), 'cond': cond, 'then': {'k': 'block', 'l': s.get('l'), 'body': [st]}}
+        lifted.append(st)
+        return _value_expr(stmts[1:], lifted, guards)
+    if k == 'null':
+        return _value_expr(stmts[1:], lifted, guards)
     if k == 'return' and s.get('e') is not None and len(stmts) == 1:
         return s['e']
     if k == 'block' and len(stmts) == 1:
-        return _value_expr(_stmts(s))
+        return _value_expr(_stmts(s), lifted, guards)
     if k == 'if' and not s.get('init') and is_pure(s.get('cond')):
-        a = _value_expr(_stmts(s.get('then')))
+        a = _value_expr(_stmts(s.get('then')), lifted, guards + ((s['cond'], True),))
         if a is None:
             return None
         if s.get('else') is not None:
             if len(stmts) != 1:
                 return None
-            b = _value_expr(_stmts(s.get('else')))
+            b = _value_expr(_stmts(s.get('else')), lifted, guards + ((s['cond'], False),))
         else:
-            b = _value_expr(stmts[1:])
+            b = _value_expr(stmts[1:], lifted, guards + ((s['cond'], False),))
         if b is None:
             return None
         return {'k': 'cond', 'l': s.get('l'), 't': a.get('t'), 'c': s['cond'], 'a': a, 'b': b}
@@ -476,11 +495,69 @@ class Inliner:
 
 # ---------------------------------------------------------------------------------------------- alias substitution
 
-def _path_inputs_stable(init, body):
-    """the lvalue path `init` denotes the same object throughout `body`: every index / base it reads is a parameter or
-       local never assigned in body, a constant, `this`, or a field that body does not write directly"""
-    from .astq import direct_writes, field_path
-    assigned = set()
+def _positions(body):
+    """pre-order position and branch context of every node below body: id(node) -> (pos, ((if-id, branch), ...), loops)"""
+    out = {}
+    counter = [0]
+
+    def rec(n, ctxt, loops):
+        if not isinstance(n, dict):
+            return
+        out[id(n)] = (counter[0], ctxt, loops)
+        counter[0] += 1
+        k = n.get('k')
+        if k == 'if':
+            rec(n.get('cond'), ctxt, loops)
+            rec(n.get('then'), ctxt + ((id(n), 0),), loops)
+            rec(n.get('else'), ctxt + ((id(n), 1),), loops)
+            return
+        if k == 'cond':
+            rec(n.get('c'), ctxt, loops)
+            rec(n.get('a'), ctxt + ((id(n), 0),), loops)
+            rec(n.get('b'), ctxt + ((id(n), 1),), loops)
+            return
+        l2 = loops + (id(n),) if k in ('for', 'while', 'do', 'rangefor') else loops
+        for c in children(n):
+            rec(c, ctxt, l2)
+    rec(body, (), ())
+    return out
+
+
+def _may_precede(pos, w, u, decl):
+    """can the write node w execute after the declaration `decl` and before the use node u?"""
+    pw, cw, lw = pos[id(w)]
+    pu, cu, lu = pos[id(u)]
+    pd, cd, ld = pos[id(decl)]
+    if pw < pd and not (set(lw) - set(ld)):
+        return False                      # before the declaration, and not in a loop the declaration is outside of
+    # in different branches of one conditional: never on the same path
+    bw = dict(cw)
+    for i_, b_ in cu:
+        if i_ in bw and bw[i_] != b_:
+            return False
+    if pw < pu:
+        return True
+    # later in the text: only through a loop that contains both but not the declaration
+    return bool((set(lw) & set(lu)) - set(ld))
+
+
+def _input_writes(init, body):
+    """nodes of body that write something the pure expression `init` reads: assigned locals / parameters, directly written
+       fields, and calls (which may write anything the expression reads from memory)"""
+    from .astq import direct_writes
+    names = set()
+    fields = set()
+    reads_memory = False
+    for n in walk(init):
+        k = n.get('k')
+        if k == 'ref' and n.get('dk') in ('parm', 'local', 'binding'):
+            names.add((n.get('name'), n.get('dl')))
+        elif k == 'mem':
+            fields.add((n.get('cls'), n.get('name')))
+            reads_memory = True
+        elif k in ('index',) or (k == 'opcall' and n.get('op') in ('[]', '*', '->')) or (k == 'un' and n.get('op') == '*') or k == 'call':
+            reads_memory = True
+    out = []
     for n in walk(body):
         k = n.get('k')
         tgt = None
@@ -488,53 +565,80 @@ def _path_inputs_stable(init, body):
             tgt = _strip(n.get('lhs'))
         elif k == 'un' and n.get('op') in _IMPURE_UN:
             tgt = _strip(n.get('e'))
-        if isinstance(tgt, dict) and tgt.get('k') == 'ref':
-            assigned.add((tgt.get('name'), tgt.get('dl')))
-    written_fields = {(p[0], p[1]) for p, n, how in direct_writes(body)}
+        if isinstance(tgt, dict) and tgt.get('k') == 'ref' and (tgt.get('name'), tgt.get('dl')) in names:
+            out.append(n)
+        if reads_memory and k in ('call', 'construct', 'new', 'delete') and not (k == 'construct' and n.get('copymove')):
+            if not (n.get('name') in _PURE_STD and (str(n.get('cls', '')).startswith('std::') or str(n.get('fn', '')).startswith('std::'))):
+                if not any(x is n for x in walk(init)):
+                    out.append(n)
+        if reads_memory and k == 'opcall' and n.get('op') in ('()', '=') and not any(x is n for x in walk(init)):
+            out.append(n)
+    for p, n, how in direct_writes(body):
+        if (p[0], p[1]) in fields:
+            out.append(n)
+    return out
 
-    def idx_ok(e):
-        for n in walk(e):
-            k = n.get('k')
-            if k == 'ref' and n.get('dk') in ('parm', 'local', 'binding') and (n.get('name'), n.get('dl')) in assigned:
-                return False
-            if k == 'mem' and (n.get('cls'), n.get('name')) in written_fields:
-                return False
-            if k in ('call', 'assign', 'construct') or (k == 'un' and n.get('op') in _IMPURE_UN):
-                return False
-        return True
-    # walk down the path; only index expressions and pointer-valued bases matter
+
+def _path_inputs(init):
+    """for an lvalue path: the sub-expressions that decide *which* object it denotes (indices, pointer-valued bases)"""
+    out = []
     e = _strip(init)
     while isinstance(e, dict):
         k = e.get('k')
         if k == 'mem':
-            if e.get('arrow') and not idx_ok(e.get('base')) and _strip(e.get('base')).get('k') != 'this':
-                return False
-            e = _strip(e.get('base'))
+            b = _strip(e.get('base'))
+            if e.get('arrow') and isinstance(b, dict) and b.get('k') != 'this':
+                out.append(b)
+                return out
+            e = b
         elif k == 'index':
-            if not idx_ok(e.get('idx')):
-                return False
+            out.append(e.get('idx'))
             e = _strip(e.get('base'))
         elif k == 'opcall' and e.get('op') in ('[]', '->', '*'):
             args = e.get('args', [])
-            if len(args) == 2 and not idx_ok(args[1]):
-                return False
+            if len(args) == 2:
+                out.append(args[1])
             e = _strip(args[0]) if args else None
         elif k == 'un' and e.get('op') == '*':
-            if not idx_ok(e.get('e')):
-                return False
-            return True
-        elif k in ('ref', 'this'):
-            return (e.get('name'), e.get('dl')) not in assigned
+            out.append(e.get('e'))
+            return out
         else:
-            return False
-    return False
+            return out
+    return out
 
 
-def substitute_aliases(f):
+def _stable_until_uses(decl_stmt, var, init, body, uses, pos=None, alias=False):
+    pos = pos or _positions(body)
+    if id(decl_stmt) not in pos:
+        return False
+    if alias:
+        writes = []
+        for part in _path_inputs(init):
+            writes += _input_writes(part, body)
+    else:
+        writes = _input_writes(init, body)
+    for w in writes:
+        if id(w) not in pos:
+            continue
+        for u in uses:
+            if id(u) in pos and _may_precede(pos, w, u, decl_stmt):
+                return False
+    return True
+
+
+def _uses_of(body, key):
+    return [x for x in walk(body) if x.get('k') == 'ref' and x.get('dk') in ('local', 'binding') and (x.get('name'), x.get('dl')) == key]
+
+
+def substitute_aliases(f, known_locals=None):
+    """local references `T& x = <lvalue path>` and - when `known_locals` (the local names this function had in the tree
+       the rules were written against) is given - *new* single-assignment value temporaries `const T v = <pure expr>` are
+       replaced by their initialiser wherever nothing the initialiser reads can change between the declaration and the use"""
     body = f.get('body')
     if not isinstance(body, dict):
         return False
     changed = False
+    pos = None
     for blk in [n for n in walk(body) if n.get('k') == 'block']:
         new = []
         for s in blk.get('body', []):
@@ -544,19 +648,35 @@ def substitute_aliases(f):
             keep = []
             for v in s.get('vars', []):
                 init = v.get('init')
-                if v.get('isref') and isinstance(init, dict) and not v.get('static') and not v.get('bindings') \
-                        and is_pure(init) and _strip(init).get('k') in ('mem', 'index', 'opcall') \
-                        and _path_inputs_stable(init, body):
+                ok = False
+                if isinstance(init, dict) and not v.get('static') and not v.get('bindings') and is_pure(init):
                     key = (v.get('name'), v.get('dl'))
-                    _replace_refs(body, key, init)
-                    changed = True
-                else:
+                    is_alias = v.get('isref') and _strip(init).get('k') in ('mem', 'index', 'opcall')
+                    base = str(v.get('name', '')).split('@')[0]
+                    is_temp = (not v.get('isref')) and known_locals is not None and base not in known_locals \
+                        and _strip(init).get('k') not in ('initlist', 'construct', 'lambda', 'str') and not _is_class_type(v.get('t'))
+                    if is_alias or is_temp:
+                        uses = _uses_of(body, key)
+                        written = any(_writes_local(x, key) for x in walk(body))
+                        if uses and (is_alias or not written):
+                            pos = pos or _positions(body)
+                            if _stable_until_uses(s, v, init, body, uses, pos, alias=is_alias):
+                                _replace_refs(body, key, init)
+                                ok = True
+                                changed = True
+                                pos = None
+                if not ok:
                     keep.append(v)
             if keep:
                 s['vars'] = keep
                 new.append(s)
         blk['body'] = new
     return changed
+
+
+def _is_class_type(t):
+    t = str(t or '').replace('const ', '').strip()
+    return '::' in t and not t.startswith('std::size_t') or t.startswith('std::')
 
 
 def _replace_refs(node, key, init):
@@ -782,12 +902,143 @@ def annotate_range_elements(f):
                 x['elem_of'] = n.get('range')
 
 
+def forwarding_lambdas_to_bind(facts):
+    """a lambda that does nothing but forward to one function (`[this](u32 n) { icu.Trigger(n); }`,
+       `[&a, i](u16 v) { a.Send(i, v); }`) is the same callable as std::bind(&C::M, &obj, bound..., _1...): bring it
+       into the bind form (the form the wiring / MMIO tables read) and drop the lambda's function fact.
+       Bound arguments must be constants or captured locals / parameters (values fixed when the lambda is created)."""
+    F = facts['functions']
+    n_conv = 0
+    for fid in list(F):
+        f = F.get(fid)
+        if f is None or not f.get('file', '').startswith(('src/', 'include/')):
+            continue
+        for n in list(walk(f.get('body'))):
+            if n.get('k') != 'lambda':
+                continue
+            lam = F.get(n.get('fn'))
+            if lam is None or not isinstance(lam.get('body'), dict):
+                continue
+            stmts = [x for x in _stmts(lam['body']) if x.get('k') != 'null']
+            if len(stmts) != 1:
+                continue
+            st = stmts[0]
+            c = _strip(st.get('e')) if st.get('k') == 'return' else _strip(st)
+            if not (isinstance(c, dict) and c.get('k') == 'call' and c.get('fn') and c['fn'] in F):
+                continue
+            callee = F[c['fn']]
+            own = {p.get('name') for p in lam.get('params', []) if p.get('name')}
+            caps = {cp.get('name') for cp in n.get('caps', []) if cp.get('name')}
+            by_ref_caps = {cp.get('name') for cp in n.get('caps', []) if cp.get('name') and cp.get('byref')}
+            nown = len(lam.get('params', []))
+
+            def is_own(x):
+                return isinstance(x, dict) and x.get('k') == 'ref' and x.get('dk') == 'parm' and x.get('name') not in caps \
+                    and isinstance(x.get('idx'), int) and x['idx'] < nown and (x.get('name') in own or not x.get('name'))
+            args = []
+            ok = True
+            used = []
+            for a in c.get('args', []):
+                a2 = _strip(a)
+                if is_own(a2):
+                    used.append(a2['idx'])
+                    args.append({'l': a.get('l'), 't': 'const std::_Placeholder<%d>' % (a2['idx'] + 1), 'k': 'ref', 'name': '_%d' % (a2['idx'] + 1),
+                                 'dk': 'global', 'qn': 'std::placeholders::_%d' % (a2['idx'] + 1)})
+                    continue
+                # bound value: constant, or made of captured-by-value locals / parameters of the enclosing function
+                bad = False
+                for x in walk(a):
+                    if is_own(x) or x.get('k') in ('call', 'mem', 'this', 'assign', 'lambda') or (x.get('k') == 'un' and x.get('op') in _IMPURE_UN):
+                        bad = True
+                    if x.get('k') == 'ref' and x.get('dk') in ('local', 'parm', 'binding') and x.get('name') in by_ref_caps:
+                        bad = True
+                if bad:
+                    ok = False
+                    break
+                args.append(copy.deepcopy(a))
+            if not ok or len(set(used)) != len(used):
+                continue
+            obj = c.get('obj')
+            bind_args = [{'l': c.get('l'), 't': 'memfnptr', 'k': 'un', 'op': '&',
+                          'e': {'l': c.get('l'), 'k': 'ref', 'name': callee.get('name'), 'dk': 'func', 'fn': c['fn']}}]
+            if callee.get('cls') and not callee.get('static'):
+                if obj is None or not is_pure(obj) or any(is_own(x) for x in walk(obj)):
+                    continue
+                o2 = _strip(obj)
+                ptr = str(o2.get('t', '')).rstrip().endswith('*') or o2.get('k') == 'this'
+                bind_args.append(copy.deepcopy(obj) if ptr else {'l': c.get('l'), 't': '%s *' % o2.get('t'), 'k': 'un', 'op': '&', 'e': copy.deepcopy(obj)})
+            elif obj is not None:
+                continue
+            keep = {'l': n.get('l')}
+            lam_id = n.get('fn')
+            n.clear()
+            n.update({'k': 'call', 'fn': 'std::bind<from-lambda>', 'name': 'bind', 't': 'std::_Bind<from-lambda>', 'args': bind_args + args,
+                      'from_lambda': lam_id})
+            n.update(keep)
+            F.pop(lam_id, None)
+            facts.get('func_units', {}).pop(lam_id, None)
+            n_conv += 1
+    return n_conv
+
+
+def canonical_increments(f):
+    """`x += 1`, `x -= 1`, `x = x + 1`, `x = x - 1` (as statements, result unused) are `++x` / `--x`"""
+    from .astq import const_value
+    from .norm import Renderer
+    body = f.get('body')
+    if not isinstance(body, dict):
+        return False
+    r = None
+    changed = False
+
+    def conv(st):
+        nonlocal r, changed
+        if not (isinstance(st, dict) and st.get('k') == 'assign' and is_pure(st.get('lhs'))):
+            return
+        op = st.get('op')
+        new_op = None
+        if op in ('+=', '-=') and const_value(_strip(st.get('rhs'))) == 1:
+            new_op = '++' if op == '+=' else '--'
+        elif op == '=':
+            rhs = _strip(st.get('rhs'))
+            if isinstance(rhs, dict) and rhs.get('k') == 'bin' and rhs.get('op') in ('+', '-'):
+                r = r or Renderer(None, inline_locals=False)
+                lt = r.r(st['lhs'])
+                a, b = rhs.get('lhs'), rhs.get('rhs')
+                if const_value(_strip(b)) == 1 and r.r(a) == lt:
+                    new_op = '++' if rhs['op'] == '+' else '--'
+                elif rhs['op'] == '+' and const_value(_strip(a)) == 1 and r.r(b) == lt:
+                    new_op = '++'
+        if new_op:
+            lhs = st['lhs']
+            keep = {'l': st.get('l'), 't': st.get('t')}
+            st.clear()
+            st.update({'k': 'un', 'op': new_op, 'e': lhs, 'was': 'assign'})
+            st.update(keep)
+            changed = True
+    for n in walk(body):
+        k = n.get('k')
+        if k == 'block':
+            for st in n.get('body', []):
+                conv(st)
+        elif k == 'if':
+            conv(n.get('then'))
+            conv(n.get('else'))
+        elif k == 'for':
+            conv(n.get('inc'))
+            conv(n.get('body'))
+        elif k in ('while', 'do', 'rangefor', 'case', 'default'):
+            conv(n.get('body') if k != 'case' and k != 'default' else n.get('sub'))
+    return changed
+
+
 # ---------------------------------------------------------------------------------------------- driver
 
 def normalize(facts):
     """in-place; returns a small report that goes into the evidence"""
     F = facts['functions']
     report = {'inlined_helpers': [], 'kept_helpers': [], 'alias_functions': 0}
+    report['forwarding_lambdas'] = forwarding_lambdas_to_bind(facts)
     vocab = load_vocab()
     if vocab is not None:
         cands = {fid: f for fid, f in F.items() if candidate(f, vocab)}
@@ -826,10 +1077,18 @@ def normalize(facts):
                 else:
                     report['kept_helpers'].append(fid)
     report['while_loops'] = 0
+    known = load_known_locals()
     for fid, f in F.items():
         if f.get('file', '').startswith(('src/', 'include/')):
-            if substitute_aliases(f):
+            kl = None
+            if known is not None:
+                root = fid.split('::<lambda@', 1)[0]
+                rf = F.get(root, f)
+                kl = set(known.get(vocab_key(rf.get('qname')), ()))
+            if substitute_aliases(f, kl):
                 report['alias_functions'] += 1
+            if canonical_increments(f):
+                report['increments'] = report.get('increments', 0) + 1
             if while_to_for(f):
                 report['while_loops'] += 1
             if index_to_rangefor(f):
